@@ -10,9 +10,10 @@ cp $d/patch.diff $d/demo_test.go $d/confirm.txt $dst/
 python3 - "$d/meta.json" "$dst/meta.json" "$r" <<'PY'
 import json,sys
 m=json.load(open(sys.argv[1]))
-m['author']="independent sub-agent given only the property text and a scratch worktree (round 2)"
+import os
+m['author']="independent sub-agent given only the property text and a scratch worktree (round %s)" % os.environ.get("SEED_ROUND","5")
 m['confirmed_by_me']="tools/confirm_seed.sh in a scratch worktree of /repo: demo passes on the clean tree, fails with the patch; touched packages build; existing tests of touched packages give the identical pass/fail set"
 m['confirm_verdict']=sys.argv[3].split(' ',1)[1] if ' ' in sys.argv[3] else sys.argv[3]
 json.dump(m,open(sys.argv[2],'w'),indent=1)
 PY
-/verif/tools/seedmatrix.sh $p-$v
+/verif/tools/seedmatrix_fast.sh $p-$v
